@@ -23,7 +23,7 @@ theorem eval_var (x : Bytes) (p : TokPos) (σ : ES) (env) (h : EnvOK σ env) (v 
   rw [hx] at h2
   simp only [Option.map_some] at h2
   cases v <;>
-  simp [embed, eval, applyChain, resolve, afterPart, resolveRest, cur, EStateM.run, bind, EStateM.bind, pure, EStateM.pure, hf, h1, h2,
+  simp [embed, eval, applyChain, resolve, afterPart, resolveRest, unboxDirect, Part.callArgs, cur, EStateM.run, bind, EStateM.bind, pure, EStateM.pure, hf, h1, h2,
     get, getThe, MonadStateOf.get, EStateM.get, tryCatch, tryCatchThe, MonadExceptOf.tryCatch, EStateM.tryCatch,
     SV.toVal, Val.kind, mkV] at h2 ⊢
 
